@@ -61,6 +61,10 @@ check('C10',
       '(C10_accepted_*), hence a displaced, re-rated, re-labelled, wrong-length or off-start piece ANYWHERE in a list of any length is '
       'rejected (C10_reject_*_anywhere). The correspondence run evaluates the model on the exact observations of the very pieces given '
       'to pb.concatenate (two-level groupings included).',
+      'The bodies of both start-time loops, the frequency-contiguity difference, the off-axis label tolerance, the labels feeding the new '
+      'centre frequency and the alignment name are REGENERATED from transforms.concatenate by translator T12 on every run (its other '
+      'statements pinned, none may be left over); C10_generated proves the model, at the tolerances the code uses, equal to the function '
+      'rebuilt from them. '
       'Trusted: Coq kernel; astropy isclose semantics as transcribed (Time.isclose atol = 2 eps days, u.isclose rtol 1e-5); '
       'np.concatenate = list append; domain |cf|/bw <= 2^30, rates < 26 GHz.',
       'machine-checked proof in Coq (Q) of a check-by-check model + correspondence run (vm_compute)',
@@ -117,6 +121,8 @@ check('C13',
       'I = sum of intensities, component names map to indices 0..3 (GENERATED _stokes_ids). The same Gallina terms, instantiated with '
       'primitive binary64 floats, are evaluated by vm_compute against the implementation on sample elements; the monitor evaluates the '
       'documented formulas in longdouble on every element, for NumPy and Dask data.',
+      'The formulas of to_intensity / to_linear / to_circular / to_stokes are REGENERATED from core.py by translator T11 on every run over the '
+      'same abstract carrier; C13_generated proves the model equal to them for every carrier (R for the theorems, binary64 for the run). '
       'Trusted: Coq kernel, stdlib real-number axioms (sig_forall_dec, sig_not_dec, functional_extensionality_dep, classic), kernel float '
       'primitives for the executing instance, T2; numpy arithmetic within 16-24 ulp of the formulas.',
       'machine-checked proof in Coq (R) of a carrier-generic model + binary64 instance evaluated against the code',
@@ -132,6 +138,9 @@ check('C19',
       'dtype rule. The transform is ONE carrier-generic Gallina term: its binary64 instance is evaluated by vm_compute against the '
       'implementation on lanes of every case. PARTIAL: axis independence and scipy.fft = this DFT are decided by the correspondence run and an '
       'independent O(N^2) longdouble oracle; long single-precision arrays by an FFT-based double-precision monitor.',
+      'The Hilbert weights (as the sequence of array writes of the source, the slice write through CPython normalisation), the output length from '
+      'the decimation slice, the dtype rule, the decimation step and the direction of the mixing ramp are REGENERATED from utils.real_to_complex by '
+      'translator T8 on every run; C19_generated_* prove the closed forms of the model equal to them. '
       'Trusted: Coq kernel, stdlib real-number axioms (sig_forall_dec, sig_not_dec, functional_extensionality_dep, classic), kernel float '
       'primitives (executing instance), scipy.fft = mathematical DFT (validated numerically on every run), float16 input computed in '
       'single precision by scipy. The real-VDIF reader path is exercised by C11.',
@@ -269,6 +278,8 @@ check('C17',
       'of any length keep identity, class and metadata of their target. The model is evaluated (vm_compute) on the operand pattern of every '
       'sampled case and its prediction of each result\'s kind/label compared with the implementation; the monitor checks values bit for bit '
       'against the same ufunc on .data for every NumPy ufunc with <= 2 inputs and <= 2 outputs, all six classes, NumPy and Dask.',
+      'The refusal test, the reference signal and the wrapping rule are REGENERATED from Signal.__array_ufunc__ by translator T10 on every '
+      'run, its other statements pinned as syntax trees; C17_generated proves the model equal to them. '
       'Trusted: Coq kernel; NumPy\'s override protocol calls some operand\'s __array_ufunc__ with inputs in original order (the model does '
       'not depend on which); results whose dtype a class admits only through its safe cast are compared after that cast (C16).',
       'machine-checked proof in Coq of a model over abstract arrays and ufuncs + correspondence run (vm_compute) + bit-exact value monitor',
@@ -299,6 +310,9 @@ check('C20',
       'over the complex numbers (every nperseg >= 1) ISTFT(STFT(x)) = x per segment and channel, from the DFT inversion theorem. '
       'PARTIAL: equality of each pb.fft transform with its reference on both backends (any axis/axes, n, norm; lazily on Dask) is decided '
       'by the correspondence run against scipy.fft (exact), numpy conventions and a direct longdouble DFT matrix.',
+      'The bookkeeping of stft/istft (samples kept, lengths, rates, alignment rule, scalings by nperseg) is REGENERATED from contrib/misc.py by '
+      'translator T9 on every run (C20_generated_lengths/_bands/_scales); T2 additionally pins that both branches of the pb.fft wrapper pass all '
+      'arguments through unchanged (C20_generated_pass_through). '
       'Trusted: Coq kernel, stdlib real-number axioms (segment inversion), T2; scipy.fft = the mathematical DFT (validated against the DFT '
       'matrix for fft/ifft); dask fft_wrap accepts a subset of keyword forms (rejections are counted, not failures).',
       'machine-checked proof in Coq (generated name table; Q band algebra; C segment inversion) + correspondence run (vm_compute) + reference-transform monitor',
@@ -314,6 +328,9 @@ check('C11',
       'with what the file encodes (baseband decoding, sideband conjugation, channel flip, axis order, Hilbert conversion of real-sampled '
       'files), real threads, Dask reads and header-derived frequency metadata are decided by the correspondence run against an independent '
       'decoding path (baseband.open directly + an independent analytic conversion) on all shipped formats, incl. 16-thread concurrent reads.',
+      'time_at, the product offset_at rounds and its bounds test, the guards of read(), the start time it hands on, the seek/read arguments of '
+      '_read_baseband and (as a pinned tree) the lazy path of _read_data are REGENERATED from the reader sources by translator T13 on every run; '
+      'C11_generated_* prove the model equal to them. '
       'Trusted: Coq kernel; baseband decoding; CPython threads / OS observed only. CPython\'s warnings module is not thread-safe and '
       'baseband installs a temporary error filter when opening a file: a Warning raised inside a worker thread is retried and counted.',
       'machine-checked proof in Coq (Z/Q/list model incl. all interleavings of per-call handles) + correspondence run (vm_compute) + independent-decoder monitor',
